@@ -31,6 +31,9 @@ def focus(n, seed):
         out.append({'id': 'srvf-%d-%d' % (seed, i), 'seed': seed * 20011 + i, 'strategy': 'random', 'plan': [], 'clients': clients,
                     'onconnect': rnd.random() < 0.2, 'handler': rnd.choice(['quick', 'yield', 'yield']), 'shutdown': True, 'deadline': 120,
                     'pollers': 2, 'pusher': False, 'focus': True})
+        if len(clients) > 1 and rnd.random() < 0.6:
+            # Shutdown starts once the first connection is tracked and idle; the second arrives around it (accept against sweep)
+            out[-1]['shutafter'] = 1
     return out
 
 
@@ -97,7 +100,7 @@ def main(pid, tier, replay_path=None):
                 # every schedule point of the focus shapes
                 extra += conn.stall_variants([s for s in scs if s.get('focus')], res, per_scenario=400, rnd=random.Random(seed + 1), skip_actors=())
                 # windows: one actor held at a point until another is in the middle of something (two connections: accept vs sweep)
-                extra += conn.window_variants([s for s in scs if s.get('focus') and len(s.get('clients', [])) > 1], res, per_scenario=150 if tier == 'quick' else 400, rnd=random.Random(seed + 2))
+                extra += conn.window_variants([s for s in scs if s.get('focus') and len(s.get('clients', [])) > 1], res, per_scenario=150 if tier == 'quick' else 400, rnd=random.Random(seed + 2), prefer=({60, 61, 62}, 'shutdown'))
                 res2, crashed2 = conn.run_scenarios(sc, binary, extra, 'w', procs=14, test='TestVerifServerScenarios')
                 scs = scs + extra + mscs
                 res.update(res2)
